@@ -141,7 +141,7 @@ func runC07(c *Ctx) error {
 		src, mode string
 	}
 	var jobs []job
-	wantVals := []string{"6", "405", "12", "3", "3", "4", "103", "50", "5.5", "248", "112", "207", "6"} // the value of each corpus program's last variable
+	wantVals := []string{"6", "405", "12", "3", "3", "4", "103", "50", "5.5", "248", "112", "207", "6", "29"} // the value of each corpus program's last variable
 	corpus := []string{
 		"func ok(a int) bool { return a > 0 }; func f(a int) int { x := 5; switch { case ok(a): x = 6 }; return x }; y := f(1)",
 		"var n = 0; func inc() int { n++; return n }; func f() int { i := 0; for inc(); i < 4; inc() { i++ }; return i*100 + n }; x := f()",
@@ -156,6 +156,7 @@ func runC07(c *Ctx) error {
 		"func s(xs ...int) int { n := 0; for _, x := range xs { n += x }; return n }; func f(k int, xs ...int) int { a := 10; b := a + k; _ = b; return s(xs...) }; type T struct { A int }; func (t *T) M(xs ...int) int { return s(xs...) + t.A }; func g() int { t := &T{A: 100}; ys := []int{1, 2, 3}; return f(1, ys...) + t.M(ys...) + f(2) }; x := g()",
 		"const ( _ = iota; KB; MB ); func size(n int) int { const ( _ = iota + 5; a; _; b ); const _ = 7; return n*MB + b - a }; func pick() int { const _ = 9; return 5 }; func caller() int { a := 100; return a*2 + pick() + size(0) }; x := caller()",
 		"func f() int { m := map[string]int{\"a\": 3}; v, _ := m[\"a\"]; _, ok := m[\"b\"]; w, ok2 := m[\"a\"]; var u, _ = m[\"zz\"]; if ok || !ok2 { return 0 }; return v + w + u }; x := f()",
+		"func f() int { a := 1; s := []int{3: 7}; t := []int{0: 7, 1: 8}; u := [][]int{1: {2: 5}}; b := 2; return a + b + s[3] + len(s) + t[1] + len(t) + u[1][2] }; x := f()",
 	}
 	// callees with 0..6 leading locals that range over a nil slice / nil map after a non-nil one, called from a
 	// frame with eight live locals: the loop's hidden slots must stay inside the callee's frame
